@@ -463,6 +463,60 @@ func runConc(p *concParams, prefix []int, extra func(w *harness.World, cr *concR
 		if !closed {
 			db.Close()
 		}
+		journalOnly := len(p.Faults) > 0
+		for _, f := range p.Faults {
+			if storage.FileType(f.Type) != storage.TypeJournal {
+				journalOnly = false // manifest/table faults: the fault enumeration (C08) judges the reopen
+			}
+		}
+		if journalOnly && !closed {
+			// after faults: what the DB answered once they had stopped must survive a clean close
+			// and reopen (a record that failed half-way must not shadow later acknowledged writes)
+			w.DB = nil
+			if err := w.Open(); err != nil {
+				cr.Viol = append(cr.Viol, "reopen after the faulted window failed: "+err.Error())
+				return
+			}
+			// a write that returned an error may turn out applied only now (its record reached
+			// the journal): per key the reopened DB answers what it answered before, or what a
+			// failed write to that key would have stored - never less than the acknowledged state
+			failed := map[string]map[string]bool{}
+			for _, o := range cr.Hist {
+				in := o.Input.(linInput)
+				if in.Kind != "write" || o.Output.(linOutput).Err == "" {
+					continue
+				}
+				for _, b := range in.Batch {
+					if failed[b.K] == nil {
+						failed[b.K] = map[string]bool{}
+					}
+					if b.Del {
+						failed[b.K][notFound] = true
+					} else {
+						failed[b.K][b.V] = true
+					}
+				}
+			}
+			for _, k := range ks {
+				v, e := getVal(w.DB.Get([]byte(k), nil))
+				before, have := "", false
+				for i, o := range cr.Hist {
+					if o.ClientId == 99 && strings.HasPrefix(cr.Descr[i], "c99 final-get:"+k+" ->") && o.Output.(linOutput).Err == "" {
+						before, have = o.Output.(linOutput).Vals[0], true
+					}
+				}
+				if !have {
+					continue
+				}
+				if e != "" {
+					cr.Viol = append(cr.Viol, fmt.Sprintf("after clean close and reopen Get(%q) fails: %s", k, e))
+				} else if v != before && !failed[k][v] {
+					cr.Viol = append(cr.Viol, fmt.Sprintf("after clean close and reopen Get(%q) = %q; before the reopen it was %q and no failed write stored that", k, v, before))
+				}
+			}
+			w.DB.Close()
+			w.DB = nil
+		}
 	})
 	return r, cr
 }
